@@ -95,7 +95,7 @@ PROPS["C10"] = dict(
 )
 
 PROPS["C13"] = dict(
-    units=[("verus", "vmcore"), ("verus", "bytecode"), ("verus", "emitter")],
+    units=[("verus", "vmcore"), ("verus", "bytecode"), ("verus", "emitter"), ("verus", "propwire")],
     explanation="emit/add_instruction/replace_instruction/change_operand/patch_jump/remove_last_pop keep lines.len() == code.len() and never change the line of a surviving byte; make() records the given line for every byte of an instruction; every RTError built by the verified VM helpers "
                 "(push/pop/top, call_func, call_builtin, push_closure, binary_op, bitwise_op, exec_call, push_frame) carries the line argument.",
     not_covered=["that the compiler passes the right token's line to emit", "errors raised inside exec_index_expr / exec_prop_* / exec_dollar_expr / build_map bodies (their contracts are assumed)",
@@ -117,20 +117,23 @@ PROPS["C15"] = dict(
     trusted=COMMON_TRUST,
 )
 PROPS["C16"] = dict(
-    units=[("kani", "headers"), ("kani", "pcapcodec"), ("verus", "pktcache")] + [("verus", "hdrser.%s" % k) for k in ("tcp", "udp", "eth", "vlan", "ipv4", "ipv6")],
-    explanation="For every header content of each layer, every getter equals the RFC field of the raw bytes, the parser fails exactly on truncated headers and the payload offset follows the header length fields.",
+    units=[("kani", "headers"), ("kani", "pcapcodec"), ("verus", "pktcache"), ("verus", "propwire")] + [("verus", "hdrser.%s" % k) for k in ("tcp", "udp", "eth", "vlan", "ipv4", "ipv6")],
+    explanation="For every header content of each layer, every getter equals the RFC field of the raw bytes, the parser fails exactly on truncated headers and the payload offset follows the header length fields. "
+                "Wiring (Verus, propwire: all 52 scalar arms, 7 payload arms and 8 default arms of exec_prop_*): reading a documented property returns the getter the documentation's table names for it; "
+                "payload is the captured buffer from the layer's payload offset, byte for byte, for every length; any other property is a runtime error with the instruction's line; the property names are the Display texts PACKET_PROP_MAP is built from (scans).",
     not_covered=["address text (C18)", "get_inner's dispatch on EtherType / protocol / next header (read; the getters it dispatches to are under contract: each returns a layer of its own kind parsed at the parent's payload offset, or an error object)",
-                 "the scalar exec_prop_* arms (thin wrappers around the verified getters/setters)"],
+                 "exec_prop_expr's dispatch on the object kind (8 one-line arms) and get_inner's recursion"],
     assumptions=["TCP flags are the 12 bits after the data offset (reserved + control bits), so that serialisation stays lossless"],
     trusted=COMMON_TRUST,
 )
 PROPS["C17"] = dict(
-    units=[("kani", "headers"), ("kani", "pcapcodec")] + [("verus", "hdrser.%s" % k) for k in ("tcp", "udp", "eth", "vlan", "ipv4", "ipv6")],
+    units=[("kani", "headers"), ("kani", "pcapcodec"), ("verus", "propwire")] + [("verus", "hdrser.%s" % k) for k in ("tcp", "udp", "eth", "vlan", "ipv4", "ipv6")],
     explanation="For every writable integer/bool field of every layer, every header content and every assigned i64: the stored value is the value reduced to the field width "
                 "(the value itself when in range) or the setter fails leaving everything unchanged; every other getter is unchanged; the serialised bytes differ only "
                 "inside the field's bit range; re-parsing reads the same value. The harnesses carry a short payload; that the payload part of the serialisation is "
-                "rawdata[offset..] whatever the header holds, for every length, is the hdrser (Verus) serialiser contract.",
-    not_covered=["address setters (string parsing, C18)", "sequences of assignments (follow from the frame condition of each setter)", "exec_prop_* wiring"],
+                "rawdata[offset..] whatever the header holds, for every length, is the hdrser (Verus) serialiser contract. Wiring (Verus, propwire): assigning a documented property calls that property's "
+                "setter and no other; the expression's value is the assigned value when the setter accepts and a runtime error with the instruction's line when it refuses; read-only properties (version) refuse every assignment.",
+    not_covered=["address setters (string parsing, C18)", "sequences of assignments (follow from the frame condition of each setter)"],
     assumptions=[],
     trusted=COMMON_TRUST,
 )
